@@ -55,6 +55,7 @@ struct Region {
     stride: usize,
     class: usize,
     bump: usize,
+    epoch: usize,
     live: usize,
     nfree: usize,
     free: [u32; MAX_FREE],
@@ -71,6 +72,7 @@ static mut REGION: Region = Region {
     stride: 0,
     class: 0,
     bump: 0,
+    epoch: 0,
     live: 0,
     nfree: 0,
     free: [0; MAX_FREE],
@@ -159,7 +161,8 @@ unsafe fn region_alloc() -> *mut u8 {
         }
     };
     r.live += 1;
-    r.digest = (r.digest ^ idx as u64).wrapping_mul(0x1000_0000_01b3);
+    // offsets relative to the first block of this run: absolute positions are never compared
+    r.digest = (r.digest ^ (idx.wrapping_sub(r.epoch)) as u64).wrapping_mul(0x1000_0000_01b3);
     let p = (r.base + idx * r.stride) as *mut u8;
     unlock();
     p
@@ -218,6 +221,80 @@ fn acct_free(size: usize) {
     }
 }
 
+// ---- debug facility: which allocations of a run survive it (lazily initialised statics)?
+pub static LEAK_ON: AtomicBool = AtomicBool::new(false);
+thread_local! { static IN_LEAK: Cell<bool> = const { Cell::new(false) }; }
+static mut LEAKS: Option<std::collections::HashMap<usize, (usize, std::backtrace::Backtrace)>> = None;
+#[allow(static_mut_refs)]
+fn leak_alloc(p: *mut u8, size: usize) {
+    if !LEAK_ON.load(Ordering::Relaxed) || p.is_null() {
+        return;
+    }
+    if IN_LEAK.try_with(|c| c.replace(true)).unwrap_or(true) {
+        return;
+    }
+    lock();
+    unsafe {
+        LEAKS.get_or_insert_with(Default::default).insert(p as usize, (size, std::backtrace::Backtrace::force_capture()));
+    }
+    unlock();
+    let _ = IN_LEAK.try_with(|c| c.set(false));
+}
+#[allow(static_mut_refs)]
+fn leak_free(p: *mut u8) {
+    if !LEAK_ON.load(Ordering::Relaxed) {
+        return;
+    }
+    if IN_LEAK.try_with(|c| c.replace(true)).unwrap_or(true) {
+        return;
+    }
+    lock();
+    unsafe {
+        if let Some(m) = LEAKS.as_mut() {
+            m.remove(&(p as usize));
+        }
+    }
+    unlock();
+    let _ = IN_LEAK.try_with(|c| c.set(false));
+}
+#[allow(static_mut_refs)]
+pub fn leak_report() {
+    LEAK_ON.store(false, Ordering::SeqCst);
+    unsafe {
+        if let Some(m) = LEAKS.take() {
+            eprintln!("{} surviving allocations", m.len());
+            for (_, (size, bt)) in m.iter().take(40) {
+                eprintln!("--- {} bytes\n{}", size, bt);
+            }
+        }
+    }
+}
+
+pub static TRACE_ON: AtomicBool = AtomicBool::new(false);
+pub static TRACE_BT_AT: AtomicUsize = AtomicUsize::new(usize::MAX);
+static TRACE_N: AtomicUsize = AtomicUsize::new(0);
+static mut TRACE_BUF: [i32; 1 << 16] = [0; 1 << 16];
+#[allow(static_mut_refs)]
+fn trace_event(v: i32) {
+    if TRACE_ON.load(Ordering::Relaxed) {
+        let n = TRACE_N.fetch_add(1, Ordering::Relaxed);
+        if n < (1 << 16) {
+            unsafe { TRACE_BUF[n] = v };
+        }
+        if v > 0 && n == TRACE_BT_AT.load(Ordering::Relaxed) {
+            let prev = TRACK.with(|t| t.replace(false));
+            let bt = std::backtrace::Backtrace::force_capture();
+            eprintln!("=== backtrace at region event {}:\n{}", n, bt);
+            TRACK.with(|t| t.set(prev));
+        }
+    }
+}
+#[allow(static_mut_refs)]
+pub fn trace_take() -> Vec<i32> {
+    let n = TRACE_N.swap(0, Ordering::Relaxed).min(1 << 16);
+    unsafe { TRACE_BUF[..n].to_vec() }
+}
+
 unsafe impl GlobalAlloc for SimAlloc {
     unsafe fn alloc(&self, layout: Layout) -> *mut u8 {
         if layout.size() == CLASS.load(Ordering::Relaxed)
@@ -226,20 +303,25 @@ unsafe impl GlobalAlloc for SimAlloc {
         {
             let p = region_alloc();
             if !p.is_null() {
+                trace_event(1 + ((p as usize - REGION_BASE.load(Ordering::Relaxed)) / 224) as i32);
                 return p;
             }
         }
         if !acct_alloc(layout.size()) {
             return std::ptr::null_mut();
         }
-        System.alloc(layout)
+        let p = System.alloc(layout);
+        leak_alloc(p, layout.size());
+        p
     }
     unsafe fn dealloc(&self, ptr: *mut u8, layout: Layout) {
         if in_region(ptr) {
+            trace_event(-1 - ((ptr as usize - REGION_BASE.load(Ordering::Relaxed)) / 224) as i32);
             region_free(ptr);
             return;
         }
         acct_free(layout.size());
+        leak_free(ptr);
         System.dealloc(ptr, layout)
     }
     unsafe fn alloc_zeroed(&self, layout: Layout) -> *mut u8 {
@@ -256,7 +338,9 @@ unsafe impl GlobalAlloc for SimAlloc {
         if !acct_alloc(layout.size()) {
             return std::ptr::null_mut();
         }
-        System.alloc_zeroed(layout)
+        let p = System.alloc_zeroed(layout);
+        leak_alloc(p, layout.size());
+        p
     }
     unsafe fn realloc(&self, ptr: *mut u8, layout: Layout, new_size: usize) -> *mut u8 {
         let class = CLASS.load(Ordering::Relaxed);
@@ -273,7 +357,9 @@ unsafe impl GlobalAlloc for SimAlloc {
         if !acct_alloc(new_size) {
             return std::ptr::null_mut();
         }
+        leak_free(ptr);
         let np = System.realloc(ptr, layout, new_size);
+        leak_alloc(np, new_size);
         if !np.is_null() {
             acct_free(layout.size());
         } else {
@@ -320,6 +406,7 @@ pub fn run_begin(seed: u64, policy: Policy) {
             // earlier run leaked (live != 0) are abandoned, never handed out again.
             r.bump = 0;
         }
+        r.epoch = r.bump;
         r.live = 0;
         r.nfree = 0;
         r.rng = seed;
